@@ -146,22 +146,6 @@ example : findPeer exS.peers 4 = none := by
   have : (findPeer exS.peers 4).isNone = true := by decide +kernel
   simpa using this
 
-theorem success_has_no_error {req j : Json} (h : successFromRequest req = some j) : j.getItem (k "error") = none := by
-  unfold successFromRequest resultFromRequest at h
-  split at h
-  · unfold resultResponse commonResponse at h
-    have h1 : keyEq (k "id") (k "error") = false := by decide +kernel
-    have h2 : keyEq (k "result") (k "error") = false := by decide +kernel
-    split at h
-    · simp only [Option.map_some, Option.some.injEq] at h
-      subst h
-      simp [Json.getItem, findItem, h1, h2]
-    · simp only [Option.map_some, Option.some.injEq] at h
-      subst h
-      simp [Json.getItem, findItem, h1, h2]
-    · cases h
-  · cases h
-
 /-- An authenticate that is answered with an error, or whose credentials do not verify, leaves
     the whole context (state, outputs, oracle) unchanged. -/
 theorem failed_auth_changes_nothing (cfg : Config) (x : Ctx) (p : Peer) (req : Json) :
